@@ -1,5 +1,6 @@
 import Rare.Base.Proto
 import Rare.Model.C13Lower
+import Rare.Model.C13Date
 /-!
 Line-protocol ops of C13.  Common trailing fields describe the data and the REMAINING library oracles
 (`dateparse.ParseFormat`, `time.Parse`).  `strconv.ParseFloat` and `strings.ToLower` are computed by
@@ -24,6 +25,16 @@ the model (`realNum` over `F64.parseFloat`, `lowerK`), not passed in:
                             `unicode.ToLower` on the non-ASCII runes of the key (identity elsewhere)
   fold     <key>            the ASCII string `ToLower(key)` if it is one (`foldLower`), else `none`
   lowtab                    the non-ASCII runes that lower-case into ASCII
+
+Round 4 – `time.Parse` computed by the model (`timeParseNs`), only `dateparse.ParseFormat` is data:
+
+  <dl>     hex list, per key the layout `ParseFormat` inferred (`-` = error)
+
+  tparse    <layout> <keys>                      per key `x` | instant in ns
+  dsort     <name> <keys> <values> <perm> <dl>   = sort
+  dsortspec <name> <keys> <values> <perm> <dl>   = sortspec      dagg = agg
+  dcmpseq   <name> <keys> <values> <pairs> <dl>  = cmpseq
+  daxioms   <name> <keys> <values> <dl>          = axioms
 -/
 namespace Rare.Drv.C13
 open Rare Rare.C13 Rare.Proto
@@ -69,6 +80,32 @@ def parseData (name keys values df dp : String) : Option Data := do
     -- `realNum` and `lowerK` are the modelled library calls; memoised on the keys of the case
     pure { name := name, keys := keys, values := values,
            o := { o with num := memo realNum keys, lower := memo lowerK keys } }
+
+/-- Data of a d-op: layouts per key, `time.Parse` by the model (memoised per layout × key). -/
+def parseDataL (name keys values dl : String) : Option (Sum String Data) := do
+  let name ← Hex.dec name
+  let keys ← decHexList keys
+  let values ← (commaList values).mapM String.toInt?
+  let lays ← decHexList dl
+  if values.length ≠ keys.length ∨ lays.length ≠ keys.length then none
+  else if ¬ keys.Nodup then none
+  else
+    let layouts := (lays.filter (· ≠ [])).eraseDups
+    if layouts.any (fun l => !layoutModelled l) then pure (.inl "unmodelled yearday-layout")
+    else
+      let layT := keys.zip lays
+      let lay : Key → Option Bytes := fun k => match layT.lookup k with
+        | some l => if l = [] then none else some l
+        | none => none
+      let rowsT := layouts.map (fun l => keys.map (fun k => (k, timeParseNs l k)))
+      let base := layoutLib layouts lay
+      let lib : DateLib := { dfmt := base.dfmt
+                             dparse := fun f k => match (rowsT.getD f []).lookup k with
+                               | some v => v
+                               | none => base.dparse f k }
+      let o := realOracle lib
+      pure (.inr { name := name, keys := keys, values := values,
+                   o := { o with num := memo realNum keys, lower := memo lowerK keys } })
 
 def Data.items (d : Data) : List NV := (d.keys.zip d.values).map (fun p => ⟨p.1, p.2⟩)
 
@@ -136,6 +173,46 @@ def matrixAnswer (n : Nat) (m : Nat → Nat → Bool) : String :=
   let mat := (List.range n).flatMap (fun i => (List.range n).map (fun j => m i j))
   s!"ok m={if n = 0 then "-" else bits mat} v={verdict n m}"
 
+def sortAnswer (op extra : String) (d : Data) : String :=
+  let items := d.items
+  match resolve d with
+  | .inl ans => ans
+  | .inr (m, rev) =>
+    if op = "sort" ∨ op = "sortspec" ∨ op = "agg" then
+      match parsePerm extra items.length with
+      | none => "bad-args"
+      | some p =>
+        let arrival := p.filterMap (fun i => items[i]?)
+        if op = "sortspec" ∨ op = "agg" then s!"ok {names (isort (specLess d m rev) arrival)}"
+        else if arrival.length ≤ 12 then
+          match buildSorter d.o sortSets d.name with
+          | .error e => errWord e
+          | .ok s => s!"ok {names (goInsertionSort s.cmp s.init arrival).1}"
+        else if uniform d m then s!"ok {names (isort (specLess d m rev) arrival)}"
+        else "unmodelled stateful-large"
+    else if op = "cmpseq" then
+      match parsePairs extra items.length, buildSorter d.o sortSets d.name with
+      | some ps, .ok s =>
+        let pairs := ps.filterMap (fun ij => do let a ← items[ij.1]?; let b ← items[ij.2]?; pure (a, b))
+        s!"ok {bits (runSeq s.cmp s.init pairs)}"
+      | _, _ => "bad-args"
+    else "bad-op"
+
+def axiomsAnswer (d : Data) : String :=
+  match resolve d with
+  | .inl ans => ans
+  | .inr _ =>
+    match buildSorter d.o sortSets d.name with
+    | .error e => errWord e
+    | .ok s =>
+      let items := d.items
+      let n := items.length
+      let arr := items.toArray
+      let m := fun (i j : Nat) => match arr[i]?, arr[j]? with
+        | some a, some b => (s.cmp s.init a b).1
+        | _, _ => false
+      matrixAnswer n m
+
 def handle : List String → String
   | ["pf", keys] =>
     match decHexList keys with
@@ -162,50 +239,34 @@ def handle : List String → String
   | ["lowtab"] =>
     let rs := (List.range 0x110000).filter (fun r => 128 ≤ r ∧ tlMin r < 128)
     s!"ok {",".intercalate (rs.map (fun r => s!"{r}:{tlMin r}"))}"
-  | [op, name, keys, values, extra, df, dp] =>
-    match parseData name keys values df dp with
+  | ["tparse", layout, keys] =>
+    match Hex.dec layout, decHexList keys with
+    | some l, some ks =>
+      if !layoutModelled l then "unmodelled yearday-layout"
+      else s!"ok {if ks.isEmpty then "." else ",".intercalate (ks.map (fun k => match timeParseNs l k with
+        | some t => toString t
+        | none => "x"))}"
+    | _, _ => "bad-args"
+  | ["daxioms", name, keys, values, dl] =>
+    match parseDataL name keys values dl with
     | none => "bad-args"
-    | some d =>
-      let items := d.items
-      match resolve d with
-      | .inl ans => ans
-      | .inr (m, rev) =>
-        if op = "sort" ∨ op = "sortspec" ∨ op = "agg" then
-          match parsePerm extra items.length with
-          | none => "bad-args"
-          | some p =>
-            let arrival := p.filterMap (fun i => items[i]?)
-            if op = "sortspec" ∨ op = "agg" then s!"ok {names (isort (specLess d m rev) arrival)}"
-            else if arrival.length ≤ 12 then
-              match buildSorter d.o sortSets d.name with
-              | .error e => errWord e
-              | .ok s => s!"ok {names (goInsertionSort s.cmp s.init arrival).1}"
-            else if uniform d m then s!"ok {names (isort (specLess d m rev) arrival)}"
-            else "unmodelled stateful-large"
-        else if op = "cmpseq" then
-          match parsePairs extra items.length, buildSorter d.o sortSets d.name with
-          | some ps, .ok s =>
-            let pairs := ps.filterMap (fun ij => do let a ← items[ij.1]?; let b ← items[ij.2]?; pure (a, b))
-            s!"ok {bits (runSeq s.cmp s.init pairs)}"
-          | _, _ => "bad-args"
-        else "bad-op"
+    | some (.inl w) => w
+    | some (.inr d) => axiomsAnswer d
   | ["axioms", name, keys, values, df, dp] =>
     match parseData name keys values df dp with
     | none => "bad-args"
-    | some d =>
-      match resolve d with
-      | .inl ans => ans
-      | .inr _ =>
-        match buildSorter d.o sortSets d.name with
-        | .error e => errWord e
-        | .ok s =>
-          let items := d.items
-          let n := items.length
-          let arr := items.toArray
-          let m := fun (i j : Nat) => match arr[i]?, arr[j]? with
-            | some a, some b => (s.cmp s.init a b).1
-            | _, _ => false
-          matrixAnswer n m
+    | some d => axiomsAnswer d
+  | [op, name, keys, values, extra, dl] =>
+    if op = "dsort" ∨ op = "dsortspec" ∨ op = "dagg" ∨ op = "dcmpseq" then
+      match parseDataL name keys values dl with
+      | none => "bad-args"
+      | some (.inl w) => w
+      | some (.inr d) => sortAnswer (String.ofList (op.toList.drop 1)) extra d
+    else "bad-op"
+  | [op, name, keys, values, extra, df, dp] =>
+    match parseData name keys values df dp with
+    | none => "bad-args"
+    | some d => sortAnswer op extra d
   | _ => "bad-op"
 
 end Rare.Drv.C13
